@@ -61,7 +61,8 @@ theorem parse_serialize_partial (env : Env R) (hd : env.decrypt = none) (fmt : R
   intro buf hsz pre rest fuel ctx hbuf hfuel hb hah
   have hs : Suffix buf pre.length ([] ++ txt ++ (trail ++ rest)) := by
     have := suffix_of_toList hbuf; simpa using this
-  have := parseCtx_spells env hd v txt h2 hwf hsz [] (trail ++ rest) pre.length fuel ctx maxDepth Gap.nil hs
+  have := parseCtx_spells env hd v txt h2 hwf hsz [] (trail ++ rest) pre.length fuel ctx maxDepth Flags.any Gap.nil
+    (any_allows v) hs
     (fun hbv => by rw [h4 hbv]; simpa using hb hbv) (by simpa using hah) hfuel hdepth
   simpa using this
 
@@ -113,6 +114,7 @@ theorem parse_serialize_indirect (env : Env R) (hd : env.decrypt = none) (fmt : 
   have := parseIndirectObject_spells env hd v txt h2 hwf hsz [] (fmtNat id) [32] (fmtNat gen) [32] [10] (trail ++ [10])
     ([10] ++ post) id gen pre.length fuel Gap.nil (fmtNat_spec id) (fmtNat_spec gen) hsp1 (by simp) hsp1 (by simp) hid hgen hnl
     (gap_append (gap_trail h3) hnl) hs (by simp [Bnd]; decide) (fun _ => by simp) (by simp [Bnd]; decide) hfuel hdepth
+    Flags.any (any_allows v)
   rw [this]
   simp [objFrame]; omega
 
@@ -167,6 +169,7 @@ theorem parse_serialize_stream (env : Env R) (hd : env.decrypt = none) (fmt : R 
   obtain ⟨dataPos, hp, hdata⟩ := parseIndirectObject_stream env hd info data txt h2 hwf hnd hlen hsz [] (fmtNat id) [32]
     (fmtNat gen) [32] [10] ([10] ++ [10]) ([10] ++ post) id gen pre.length fuel Gap.nil (fmtNat_spec id) (fmtNat_spec gen)
     hsp1 (by simp) hsp1 (by simp) hid hgen hnl (gap_append hnl hnl) (by simp) hs (by simp [Bnd]; decide) hfuel hdepth
+    Flags.any (by decide)
   refine ⟨dataPos, ?_, hdata⟩
   rw [hp]
   simp [objFrame]; omega
